@@ -49,9 +49,9 @@ macro_rules! prim {
         })*
     };
 }
-prim!(i8, u8, i32, u32, u64, isize, usize);
+prim!(i8, u8, i16, u16, i32, u32, u64, isize, usize);
 
-pub const TYPES: [&str; 7] = ["i8", "u8", "i32", "u32", "u64", "isize", "usize"];
+pub const TYPES: [&str; 9] = ["i8", "u8", "i16", "u16", "i32", "u32", "u64", "isize", "usize"];
 pub const BASES: [&str; 8] = ["min", "max", "sum", "minadd", "maxadd", "sumadd", "mm", "smm"];
 
 /// `<T as MinMax>::MIN MAX <T as ZeroOne>::ZERO ONE` — the trait constants the items' `Default` / `new` are built from
@@ -73,11 +73,14 @@ pub fn const_line(ty: &str) -> Option<String> {
         "u128" => consts::<u128>(),
         "isize" => consts::<isize>(),
         "usize" => consts::<usize>(),
+        // floats: as bit patterns
+        "f64" => fconsts::<f64>(),
+        "f32" => fconsts::<f32>(),
         _ => return None,
     })
 }
-pub const CONST_TYPES: [&str; 12] =
-    ["i8", "u8", "i16", "u16", "i32", "u32", "i64", "u64", "i128", "u128", "isize", "usize"];
+pub const CONST_TYPES: [&str; 14] =
+    ["i8", "u8", "i16", "u16", "i32", "u32", "i64", "u64", "i128", "u128", "isize", "usize", "f64", "f32"];
 
 // ---- tokens ----
 
@@ -509,6 +512,8 @@ pub fn tspec(base: &str, ty: &str) -> Option<TSpec> {
     let (lo, hi) = match ty {
         "i8" => (<i8 as Prim>::LO, <i8 as Prim>::HI),
         "u8" => (<u8 as Prim>::LO, <u8 as Prim>::HI),
+        "i16" => (<i16 as Prim>::LO, <i16 as Prim>::HI),
+        "u16" => (<u16 as Prim>::LO, <u16 as Prim>::HI),
         "i32" => (<i32 as Prim>::LO, <i32 as Prim>::HI),
         "u32" => (<u32 as Prim>::LO, <u32 as Prim>::HI),
         "u64" => (<u64 as Prim>::LO, <u64 as Prim>::HI),
@@ -667,7 +672,8 @@ pub fn gen_typed<T: HItem>(
     let signed = sp.lo < 0;
     // `SumAdd::len` is a `T`: the number of elements must be representable
     let n = if big {
-        let ok: Vec<usize> = SIZES_BIG.iter().cloned().filter(|&k| !(sp.sums && sp.modk) || (k as i128) <= sp.hi).collect();
+        let ok: Vec<usize> =
+            SIZES_BIG.iter().cloned().filter(|&k| !(sp.sums && sp.modk) || (k as i128) <= sp.hi).collect();
         *rng.pick(&ok)
     } else {
         1 + rng.below(17) as usize
@@ -680,7 +686,7 @@ pub fn gen_typed<T: HItem>(
         sp.hi
     };
     let share = if sp.sums { budget / n as i128 } else { 0 };
-    let ctor = *rng.pick(&["new", "slice", "iter"]);
+    let ctor = *rng.pick(&["new", "slice", "iter", "new", "slice", "iter", "iterp", "iterr"]);
     st.bump(&format!("ctor_{}", ctor));
     st.bump(&format!("item_{}", name));
     st.bump("typed_histories");
@@ -718,7 +724,9 @@ pub fn gen_typed<T: HItem>(
     if vals.iter().any(|v| v.contains('@')) {
         st.bump("constructor_values_with_own_pending_modifier");
     }
-    let obs_of = |tok: &str| -> T::O { T::parse_val(tok).unwrap_or_else(|| panic!("generated value does not parse: {} {}", name, tok)).obs() };
+    let obs_of = |tok: &str| -> T::O {
+        T::parse_val(tok).unwrap_or_else(|| panic!("generated value does not parse: {} {}", name, tok)).obs()
+    };
     let mut shadow: Vec<T::O> =
         if ctor == "new" { vec![obs_of(&vals[0]); n] } else { vals.iter().map(|v| obs_of(v)).collect() };
     let mut tags = Tags::new(n);
@@ -785,7 +793,8 @@ pub fn gen_typed<T: HItem>(
                     }
                     m.to_string()
                 };
-                let m = T::parse_mod(&[mt.as_str()]).unwrap_or_else(|| panic!("generated modifier does not parse: {} {}", name, mt));
+                let m = T::parse_mod(&[mt.as_str()])
+                    .unwrap_or_else(|| panic!("generated modifier does not parse: {} {}", name, mt));
                 for e in shadow[l..=r].iter_mut() {
                     *e = T::o_act(&m, e);
                 }
@@ -813,7 +822,8 @@ pub fn gen_typed<T: HItem>(
                 let toks: Vec<&str> = pt.split_whitespace().collect();
                 let pred = T::parse_pred(&toks).unwrap_or_else(|| panic!("generated predicate does not parse: {}", pt));
                 let flags: Vec<bool> = aggs.iter().map(|a| pred(a)).collect();
-                let found = if rev { tags.lbr(&flags, pos, pos, 0, 0, n - 1) } else { tags.lb(&flags, pos, pos, 0, 0, n - 1) };
+                let found =
+                    if rev { tags.lbr(&flags, pos, pos, 0, 0, n - 1) } else { tags.lb(&flags, pos, pos, 0, 0, n - 1) };
                 let nm = if rev { "lbr" } else { "lb" };
                 st.bump(&format!("op_{}", nm));
                 st.bump(&format!("pred_{}", toks[0]));
@@ -834,12 +844,17 @@ pub fn gen_typed<T: HItem>(
                 }
                 line.push_str(&format!(" ; {} {} {}", nm, pos, pt));
             }
-            _ => {
+            5 => {
                 for i in 0..n {
                     tags.range(i, i, None, 0, 0, n - 1);
                 }
                 st.bump("op_dbg");
                 line.push_str(" ; dbg");
+            }
+            _ => {
+                // (transfers are left to the untyped streams: a copied aggregate would need its own overflow budget)
+                st.bump("op_dfl");
+                line.push_str(" ; dfl");
             }
         }
     }
